@@ -36,7 +36,7 @@ def build(sizes, m, spreads, layout):
     return st, labels
 
 
-def judge(sizes, m, spreads, layout, draw, repeat=1):
+def judge(sizes, m, spreads, layout, draw, repeat=1, respread=False):
     """returns (message or None, outcome tag)"""
     from fast_ticc import cluster_maintenance as cm
     sampler = cm.random
@@ -45,7 +45,20 @@ def judge(sizes, m, spreads, layout, draw, repeat=1):
     cur_labels = list(labels)
     cur = st
     tag = None
+    spreads0 = tuple(spreads)
     for step in range(repeat):
+        if respread and step > 0:
+            # the optimisation phase of the next round refits every cluster: new spreads arrive the way the
+            # library itself installs them (shallow copy of the cluster + assignment)
+            spreads = tuple(reversed(spreads0)) if step % 2 else spreads0
+            nxt = cur.shallow_copy()
+            fresh = []
+            for c, sp in zip(cur.clusters, spreads):
+                c2 = c.shallow_copy()
+                c2.computed_covariance = np.array([[float(sp), 0.0], [0.0, float(sp)]])
+                fresh.append(c2)
+            nxt.clusters = fresh
+            cur = nxt
         sizes_now = [cur_labels.count(k) for k in range(K)]
         before = seams.snapshot_parts(cur)
         sampler.reset(())
@@ -175,12 +188,14 @@ def work(task):
         # histories: output fed back (depth 3), default draws
         if sum(sizes) <= 2 * top:
             for spreads in (tuple(range(1, K + 1)), tuple(range(K, 0, -1))):
-                acc.n += 1
-                msg, tag = judge(sizes, m, spreads, "sorted", "first", repeat=3)
-                acc.count("history_outcome", str(tag))
-                if msg:
-                    acc.fail({"sizes": list(sizes), "m": m, "spreads": list(spreads), "layout": "sorted",
-                              "draw": "first", "repeat": 3}, msg)
+                for respread in (False, True):
+                    acc.n += 1
+                    msg, tag = judge(sizes, m, spreads, "sorted", "first", repeat=3, respread=respread)
+                    acc.count("history_outcome", str(tag))
+                    if msg:
+                        acc.fail({"sizes": list(sizes), "m": m, "spreads": list(spreads), "layout": "sorted",
+                                  "draw": "first", "repeat": 3, "respread": respread},
+                                 ("spreads re-ranked between applications: " if respread else "") + msg)
     acc.sample({"K": K, "m": m, "sizes_first": first_sizes, "size_alphabet": [0, top]})
     return acc.result()
 
@@ -209,7 +224,7 @@ def run(ctx):
     ctx.cov["rule"] = (
         "every size vector in {0..3m+2}^K for the listed (K,m) x every strict ordering of spreads + all-equal x "
         "{sorted, interleaved} label layout x donor draw {first m, last m, and every m-subset of the first "
-        "donor when C(n,m)<=20}; plus histories: the output fed back 3 times. Reference model in refs.py "
+        "donor when C(n,m)<=20}; plus histories: the output fed back 3 times, with and without the clusters' spreads being re-ranked (reversed) between applications. Reference model in refs.py "
         "(needy = size<2 in the input; donors = input clusters with >=2m that still hold >=2m, largest spread "
         "first, exactly m per refill; otherwise RuntimeError naming the donor shortage, input untouched). "
         "non-trivial = cases that repopulate or must raise")
@@ -223,7 +238,7 @@ def replay(ctx, case):
     cm.random = seams.ScriptedRandom()
     draw = case["draw"] if isinstance(case["draw"], str) else tuple(case["draw"])
     msg, tag = judge(tuple(case["sizes"]), case["m"], tuple(case["spreads"]), case["layout"], draw,
-                     repeat=case.get("repeat", 1))
+                     repeat=case.get("repeat", 1), respread=case.get("respread", False))
     ctx.cov["evaluations"] = 1
     if msg:
         ctx.violation(case, msg)
